@@ -1,6 +1,7 @@
 package remote
 
 import (
+	"bytes"
 	"slices"
 
 	"github.com/NethermindEth/juno/grpc/gen"
@@ -14,6 +15,11 @@ type iterator struct {
 	logger   log.StructuredLogger
 	currentK []byte
 	currentV []byte
+	// The range the iterator was created for, see [db.KeyValueReader.NewIterator]: the server's
+	// cursor ranges over the whole database, the bounds are applied here.
+	lowerBound []byte
+	upperBound []byte // nil: none
+	positioned bool
 }
 
 func (i *iterator) doOpAndUpdate(op gen.Op, k []byte) error {
@@ -33,6 +39,10 @@ func (i *iterator) doOpAndUpdate(op gen.Op, k []byte) error {
 		return err
 	}
 
+	if i.upperBound != nil && len(pair.K) > 0 && bytes.Compare(pair.K, i.upperBound) >= 0 {
+		// the cursor has left the range: the iterator is exhausted
+		return nil
+	}
 	i.currentK = pair.K
 	i.currentV = pair.V
 	return nil
@@ -62,8 +72,13 @@ func (i *iterator) UncopiedValue() ([]byte, error) {
 }
 
 func (i *iterator) First() bool {
-	if err := i.doOpAndUpdate(gen.Op_FIRST, nil); err != nil {
-		i.logger.Debug("Error", zap.Stringer("op", gen.Op_FIRST), zap.Error(err))
+	i.positioned = true
+	op, key := gen.Op_FIRST, []byte(nil)
+	if len(i.lowerBound) > 0 {
+		op, key = gen.Op_SEEK, i.lowerBound
+	}
+	if err := i.doOpAndUpdate(op, key); err != nil {
+		i.logger.Debug("Error", zap.Stringer("op", op), zap.Error(err))
 	}
 	return len(i.currentK) > 0 || len(i.currentV) > 0
 }
@@ -73,6 +88,9 @@ func (i *iterator) Prev() bool {
 }
 
 func (i *iterator) Next() bool {
+	if !i.positioned {
+		return i.First()
+	}
 	if err := i.doOpAndUpdate(gen.Op_NEXT, nil); err != nil {
 		i.logger.Debug("Error", zap.Stringer("op", gen.Op_NEXT), zap.Error(err))
 	}
@@ -80,6 +98,10 @@ func (i *iterator) Next() bool {
 }
 
 func (i *iterator) Seek(key []byte) bool {
+	i.positioned = true
+	if bytes.Compare(key, i.lowerBound) < 0 {
+		key = i.lowerBound
+	}
 	if err := i.doOpAndUpdate(gen.Op_SEEK, key); err != nil {
 		i.logger.Debug("Error", zap.Stringer("op", gen.Op_SEEK), zap.Error(err))
 	}
